@@ -46,6 +46,8 @@ GOOD = {"jku": "https://example.com/k", "jwk": {"kty": "oct", "k": "AAAA"}, "kid
 
 def wrong_types(demanded):
     out = []
+    if demanded == "bool":
+        out += [("int:0", 0), ("int:1", 1), ("float:0.0", 0.0), ("float:1.0", 1.0)]     # equal to False / True, yet JSON numbers
     for t, v in SAMPLE.items():
         if t == demanded:
             continue
@@ -110,7 +112,7 @@ def cases(draw):
         c["name"] = draw(st.sampled_from(["custom", "x-ext"] + (["kid", "cty"] if rule == "custom-required" else [])))
         c["ctype"] = "str" if c["name"] in ("kid", "cty") else draw(st.sampled_from(["str", "int", "bool", "list[str]", "url", "jwk"]))
         good = {"str": "v", "int": 5, "bool": False, "list[str]": ["a"], "url": "https://a/b", "jwk": {"kty": "oct"}}[c["ctype"]]
-        bad = {"str": 5, "int": "5", "bool": "no", "list[str]": [1], "url": 7, "jwk": "oct"}[c["ctype"]]
+        bad = {"str": 5, "int": "5", "bool": draw(st.sampled_from(["no", 0, 1, 1.0])), "list[str]": [1], "url": 7, "jwk": "oct"}[c["ctype"]]
         c["value"] = good if rule != "custom-type" else bad
         c["required"] = rule == "custom-required" or draw(st.booleans())
     elif rule == "alg-specific-missing":
